@@ -402,6 +402,9 @@ func checkC18(c *Ctx) Meta {
 			c.Bad("C18-PAD", key, c.Pos(f.Pos()), "the pad helper no longer computes size - len(src): short values are not right-aligned")
 		}
 	}
+	c.Rule("C18-BRANCHKEY", "the key a wallet address signs with is the BIP32 child of its own branch: at unlock each entry's private key is Child(index) of the branch key selected by the entry's recorded branch (external test selects the external branch key), the C05-BIND rule — otherwise an internal address gets the key of path …/0/i instead of …/1/i and no longer matches its public key", 1)
+	checkRederiveOwnPath(c, "C18-BRANCHKEY")
+
 	return Meta{
 		Explanation: "Width discipline only: a forward label analysis (sources = (*big.Int).Bytes() in hdkeychain and the mnemonic code; propagation through locals, slices, parameters, returns and struct fields; sanitisers = the repository's pad helpers recognised by shape; width-insensitive consumers ignored) with fixed-offset copy / append / hash-write / base58 sinks. A short private key reaching the hardened-derivation buffer is the known btcsuite deviation and is a recorded known finding.",
 		NotDecided:  "equality of derived keys with BIP32/BIP39 for all inputs, public/private derivation agreement, mnemonic round trip — value facts (elliptic-curve and bit arithmetic).",
